@@ -174,6 +174,23 @@ theorem files_eq_reach_load (fs : FS) (lim : Limits) (hl : 1 ≤ lim.maxDepth) (
   rw [this]
   exact files_eq_reach fs lim hl c hc root rf hsz
 
+/-- **files_match_order** (every tree): `Files` has an entry exactly for the paths of `FileOrder`,
+    and every entry is the parse of the file as it is on disk (consistent cache). -/
+theorem files_match_order (fs : FS) (lim : Limits) (m : Mode) (c : Cache) (hc : Cons fs lim c)
+    (root : Path) (rf : File) (res : Res) (h : (loadFromContent fs lim m c root rf).res = some res) :
+    (∀ q, (res.files.get q).isSome = true ↔ q ∈ res.order) ∧
+    (∀ q f, res.files.get q = some f → fs q = some f) := by
+  unfold loadFromContent at h
+  split at h
+  · simp at h
+  · split at h
+    · simp at h
+    · rename_i r es st e
+      simp only at h
+      subst h
+      obtain ⟨h1, h2⟩ := loadF_files fs lim m _ _ _ _ _ _ _ _ _ hc e
+      exact ⟨h2, fun q f hq => (h1.cons fs lim q f hq).1⟩
+
 /-! ### Diagnostics -/
 
 /-- **errors_local**: on the repaired tree every diagnostic of a load is `Located`: a missing,
@@ -347,6 +364,21 @@ example : brief (load diamond ⟨1000, 50⟩ .repaired [] 0) = (some [1, 3, 2], 
 example : brief (load wide ⟨1000, 2⟩ .repaired [] 0) = (some [1, 2, 3], []) := by decide +kernel
 example : brief (load loop ⟨1000, 50⟩ .repaired [] 0) =
     (some [1], [(.cycle, 1, some 1, 1), (.cycle, 0, some 1, 2)]) := by decide +kernel
+/-- Non-vacuity of the hypotheses of the theorems above: an empty cache is consistent, the
+    diamond is loaded without depth diagnostics, `loop` has a reachable file on a cycle. -/
+example : Cons diamond ⟨1000, 50⟩ [] := fun p f h => by simp [Cache.get] at h
+example : NoDepth (loadFromContent diamond ⟨1000, 50⟩ .repaired [] 0 (mkFile [1, 2])).errs := by
+  intro e he
+  have : (loadFromContent diamond ⟨1000, 50⟩ .repaired [] 0 (mkFile [1, 2])).errs = [] := by decide +kernel
+  rw [this] at he; simp at he
+example : ∃ x, Reach loop ⟨1000, 50⟩ 0 (mkFile [1]) x ∧ OnCycle loop ⟨1000, 50⟩ 0 (mkFile [1]) x := by
+  have e01 : Edge loop 0 (mkFile [1]) 0 1 :=
+    ⟨mkFile [1], by simp [fileOf], mkInc 1 1, by simp [mkFile, List.zipIdx], Or.inl rfl⟩
+  have e10 : Edge loop 0 (mkFile [1]) 1 0 :=
+    ⟨mkFile [1, 0], by simp [fileOf, loop], mkInc 0 2, by simp [mkFile, List.zipIdx], Or.inl rfl⟩
+  have l1 : Loadable loop ⟨1000, 50⟩ 1 := ⟨mkFile [1, 0], rfl, by decide⟩
+  exact ⟨0, Reach.root, 1, ⟨e01, Or.inr l1⟩, LeadsL.tail (LeadsL.refl 1) ⟨e10, Or.inl rfl⟩⟩
+
 /-- a chain deeper than the limit: the too-deep include is reported on its directive (line 1 of f1) -/
 example : brief (load (fun p => if p < 5 then some (mkFile [p + 1]) else none) ⟨1000, 2⟩ .repaired [] 0) =
     (some [1], [(.depth, 2, none, 1)]) := by decide +kernel
